@@ -12,7 +12,7 @@ EXTENDS ValueMachine, StrEnv, Json, SequencesExt
 
 CONSTANTS Tier
 
-MaxLen == IF Tier \in {"quick", "c07"} THEN 2 ELSE 3
+MaxLen == IF Tier \in {"quick", "c07"} THEN 2 ELSE 3      \* ("c11": 3, so that the truncating custom sanitizer matters)
 
 Strings == UNION {[1..n -> Sigma] : n \in 0..MaxLen}
 
@@ -51,12 +51,15 @@ RuleSets ==
      a \in AtMostOne({NE}), b \in AtMostOne({MinR(n, "lit") : n \in Lens}),
      c \in AtMostOne({MaxR(n, "lit") : n \in Lens}), e \in AtMostOne({PredA}), f \in AtMostOne({ReLower, ReHasA})}
 
-MaxRules == IF Tier = "c07" THEN 5 ELSE IF Tier = "quick" THEN 2 ELSE 3
+MaxRules == IF Tier = "c07" THEN 5 ELSE IF Tier = "quick" THEN 2 ELSE IF Tier = "c11" THEN 1 ELSE 3
 ValSeqs == UNION {Perms(S) : S \in {T \in RuleSets : T # {} /\ Cardinality(T) <= MaxRules}}
 
 \* ---- sanitizers: every order of every subset of {trim, lowercase | uppercase, one custom}
 San(k, fn) == [k |-> k, fn |-> fn, p |-> <<>>]
-Customs == IF Tier \in {"quick", "c07"} THEN {San("with", "bang")} ELSE {San("with", "bang"), San("with", "rev"), San("with", "take2")}
+\* "c11": the idempotent custom function in every position among the built-ins (C11's precondition is decided by Builtin)
+Customs == IF Tier \in {"quick", "c07"} THEN {San("with", "bang")}
+           ELSE IF Tier = "c11" THEN {San("with", "take2")}
+           ELSE {San("with", "bang"), San("with", "rev"), San("with", "take2")}
 SanSets == {a \cup b \cup c : a \in AtMostOne({San("trim", "")}),
                               b \in AtMostOne({San("lowercase", ""), San("uppercase", "")}),
                               c \in AtMostOne(Customs)}
@@ -83,6 +86,9 @@ CustomVals == {<<[k |-> "custom", b |-> 0, fn |-> "short", p |-> <<>>, sp |-> "l
 DeclSpace ==
   IF Tier = "c07"    \* C07 slice: every permutation of four and five validators (the full built-in set)
   THEN {Decl(<<San("trim", "")>>, "std", val, dflt) : val \in {v \in ValSeqs : Len(v) >= 4}, dflt \in Defaults}
+  ELSE IF Tier = "c11"   \* C11 slice: every sanitizer order (idempotent custom function included) x three validator lists
+  THEN {Decl(san, "std", val, dflt) : san \in SanSeqs, val \in {<<NE>>, <<MaxR(2, "lit")>>, <<PredA>>}, dflt \in Defaults}
+       \cup {Decl(san, "none", <<>>, dflt) : san \in SanSeqs, dflt \in Defaults}
   ELSE
   {Decl(san, "std", val, dflt) : san \in SanSeqs, val \in {v \in ValSeqs : Len(v) <= 1}, dflt \in Defaults}
   \cup {Decl(san, "std", val, dflt) : san \in BuiltinSanSeqs, val \in ValSeqs, dflt \in Defaults}
@@ -100,6 +106,7 @@ MCInputsOf(d, e) ==
   ELSE {In(x) : x \in Boundary} \cup (IF e = "deser" THEN {InFail} ELSE {})
 
 MCEpsOf(d) ==
+  IF Tier = "c11" THEN {CtorName(d)} ELSE      \* canonicity is a statement about the constructor
   {CtorName(d), "default", "deser", "from_str_s"}
   \cup (IF NInSeq("From", d.traits) THEN {"from", "from_ref"} ELSE {"try_from", "try_from_ref"})
 
